@@ -650,3 +650,28 @@ Proof. split; vm_compute; reflexivity. Qed.
 Lemma std_types_reach_pipes_lemma :
   forallb (reaches_unchanged create_pipe_std_columns retrieve_u_writes retrieve_u_default) pipe_library = true.
 Proof. vm_compute. reflexivity. Qed.
+
+
+(* ------------------------------------------------------------------ Sutherland and polynomial values *)
+Lemma sutherland_reference_lemma pow15 eta0 t0 ts :
+  pow15 (t0 / t0) == 1 -> ~ t0 + ts == 0 ->
+  sutherland_value pow15 eta0 t0 ts t0 == eta0.
+Proof.
+  intros Hp Hs. unfold sutherland_value. rewrite Hp. field. intro H. apply Hs. rewrite <- H. ring.
+Qed.
+
+Lemma sutherland_formula_lemma pow15 eta0 t0 ts x :
+  sutherland_value pow15 eta0 t0 ts x == eta0 * (t0 + ts) / (ts + x) * pow15 (x / t0).
+Proof. unfold sutherland_value. reflexivity. Qed.
+
+Lemma polynomial_value_lemma cs x :
+  polynomial_value (fst (polynomial_getters cs)) x == poly_desc cs x.
+Proof. unfold polynomial_value, polynomial_getters. simpl. apply horner_is_poly. Qed.
+
+(* ------------------------------------------------------------------ loaded data = nearest doubles of the text *)
+Fixpoint table_loaded_ok (lib obs : list knot) : bool :=
+  match lib, obs with
+  | [], [] => true
+  | k :: r, o :: s => nearest_double_b (fst k) (fst o) && nearest_double_b (snd k) (snd o) && table_loaded_ok r s
+  | _, _ => false
+  end.
